@@ -20,6 +20,10 @@ pub enum EngineCfg {
     Ror2,
     GoldFalse,
     GoldObsolete,
+    /// an engine with a dedicated-server app id besides the main one (Operation: Harsh Doorstop, 736590 / 950900), against a
+    /// server reporting the main id / the dedicated id. Not part of `ALL`: used by the app-id cases of C02 only.
+    OhdMain,
+    OhdDedicated,
 }
 
 impl EngineCfg {
@@ -41,6 +45,16 @@ impl EngineCfg {
             EngineCfg::Ror2 => Engine::new(632_360),
             EngineCfg::GoldFalse => Engine::new_gold_src(false),
             EngineCfg::GoldObsolete => Engine::new_gold_src(true),
+            EngineCfg::OhdMain | EngineCfg::OhdDedicated => Engine::new_with_dedicated(736_590, 950_900),
+        }
+    }
+    /// the app id the server reports where it only fits the 64-bit game id
+    pub fn wide_appid(self) -> Option<u64> {
+        match self {
+            EngineCfg::Ror2 => Some(632_360),
+            EngineCfg::OhdMain => Some(736_590),
+            EngineCfg::OhdDedicated => Some(950_900),
+            _ => None,
         }
     }
     pub fn layout(self) -> Layout {
@@ -55,7 +69,7 @@ impl EngineCfg {
             EngineCfg::SourceNone | EngineCfg::App440 => 440,
             EngineCfg::Css240 => 240,
             EngineCfg::Ship2400 => 2400,
-            EngineCfg::Ror2 => 0, // 632 360 does not fit in 16 bits: reported through the game id
+            EngineCfg::Ror2 | EngineCfg::OhdMain | EngineCfg::OhdDedicated => 0, // 632 360 etc. do not fit in 16 bits: reported through the game id
             EngineCfg::GoldFalse | EngineCfg::GoldObsolete => 10,
         }
     }
@@ -210,7 +224,7 @@ fn build_cases(tier: Tier) -> Vec<Case> {
                 Some(b)
             };
             // Risk of Rain 2's app id only fits the 64-bit game id: keep flag 0x01 in that engine's product
-            if e == EngineCfg::Ror2 && mask.map_or(true, |b| b & 1 == 0) {
+            if e.wide_appid().is_some() && mask.map_or(true, |b| b & 1 == 0) {
                 continue;
             }
             let mut c = base(e, dev);
@@ -362,10 +376,19 @@ fn build_cases(tier: Tier) -> Vec<Case> {
         ("css", EngineCfg::Css240),
         ("counterstrike", EngineCfg::GoldFalse),
         ("ror2", EngineCfg::Ror2),
+        // a game whose dedicated servers report another app id than the game itself: both are this game
+        ("ohd", EngineCfg::OhdMain),
+        ("ohd", EngineCfg::OhdDedicated),
     ] {
+        if matches!(e, EngineCfg::OhdMain | EngineCfg::OhdDedicated) {
+            // (also through the protocol-level entry point, with the app-id check on)
+            let mut c = base(e, dev);
+            c.label = format!("E valve::query with Engine::new_with_dedicated(736590, 950900), app-id check on, server reporting {} dev<={dev}", e.wide_appid().unwrap());
+            v.push(c);
+        }
         let mut c = base(e, dev);
         c.kind = Kind::Wrapper(name);
-        c.label = format!("E games::{name}::query dev<={dev}");
+        c.label = format!("E games::{name}::query dev<={dev}{}", if name == "ohd" { format!(" (server reporting app id {})", e.wide_appid().unwrap()) } else { String::new() });
         v.push(c);
         // the per-game modules must also get the transport right (each names its engine itself): split replies, and for
         // Counter-Strike: Source the protocol-7 form without the size field
@@ -408,7 +431,8 @@ impl Prop for C02 {
          within a case every server state reachable from the default state by <= bound field deviations over the boundary \
          alphabets is generated (state fields are recorded choice points), the real valve::query / games::<g>::query is run \
          against the reference server through the virtual network (loss-free; in order, and for the split framings also back to \
-         front and with fragment 0 last), and the result must equal the state. \
+         front and with fragment 0 last), and the result must equal the state (also for an engine with a dedicated-server app id, \
+         app-id check on, against servers reporting either id; and a 170 kB reply compressed into a multi-block bzip2 stream). \
          distinct_nontrivial = distinct (outcome class, wire-log shape) pairs of executions that received at least one datagram"
             .into()
     }
@@ -457,7 +481,7 @@ impl Prop for C02 {
                 // Risk of Rain 2 the app id is only expressible there)
                 if let Some(e) = state.info.edf.as_mut() {
                     if e.game_id == Some(440) {
-                        e.game_id = Some(if case.engine == EngineCfg::Ror2 { 632_360 } else { case.engine.appid() as u64 });
+                        e.game_id = Some(case.engine.wide_appid().unwrap_or(case.engine.appid() as u64));
                     }
                 }
                 if let Err(e) = self_check(&state, obsolete) {
@@ -500,7 +524,7 @@ impl Prop for C02 {
                         let settings = GatheringSettings {
                             players: GatherToggle::Enforce,
                             rules: GatherToggle::Enforce,
-                            check_app_id: false,
+                            check_app_id: matches!(case.engine, EngineCfg::OhdMain | EngineCfg::OhdDedicated),
                         };
                         let x = run_query(Box::new(server), Box::new(Faithful), ch, || {
                             valve::query(&a, engine, Some(settings), None)
@@ -516,6 +540,7 @@ impl Prop for C02 {
                                 "css" => gamedig::games::css::query(&ip, Some(PORT)),
                                 "counterstrike" => gamedig::games::counterstrike::query(&ip, Some(PORT)),
                                 "ror2" => gamedig::games::ror2::query(&ip, Some(PORT)),
+                                "ohd" => gamedig::games::ohd::query(&ip, Some(PORT)),
                                 _ => unreachable!(),
                             }?;
                             Ok(Resp::Game(r))
@@ -527,7 +552,21 @@ impl Prop for C02 {
             |ctx, x, state| {
                 match &case.kind {
                     Kind::Protocol => {
-                        let exp = Resp::Valve(expected(state, obsolete, &engine, true, true));
+                        let exp_valve = expected(state, obsolete, &engine, true, true);
+                        // (the cases that switch the app-id check on: a state deviated to another app is refused)
+                        if matches!(case.engine, EngineCfg::OhdMain | EngineCfg::OhdDedicated) {
+                            let accepted = match engine {
+                                Engine::Source(Some((a, d))) => exp_valve.info.appid == a || Some(exp_valve.info.appid) == d,
+                                _ => true,
+                            };
+                            if !accepted {
+                                if !matches!(x.outcome.err_kind(), Some(gamedig::GDErrorKind::BadGame)) {
+                                    ctx.violation("appid-check:foreign-id-not-refused", &x.choices(), "app-id check on: a server of another app was not refused with BadGame", x.outcome.describe_json(), "Err(BadGame)", crate::vnet::render_log(&x.log));
+                                }
+                                return;
+                            }
+                        }
+                        let exp = Resp::Valve(exp_valve);
                         if check_equal(ctx, x, &exp, &tag) {
                             ctx.sample(serde_json::json!({"case": case.label, "choices": x.choices(), "datagrams": x.log.len(), "name": state.info.name}));
                         }
